@@ -8,7 +8,7 @@ def ev_ok(names):
 
 LEDGER_DRIVERS = [{"name": "ledger", "args": {"quick": [60, 120], "thorough": [3000, 300]}}]
 # episodes that need an exact coincidence (harness/src/drv2.rs)
-EDGE_DRIVERS = [{"name": "edge", "args": {"quick": [288], "thorough": [12000]}}]
+EDGE_DRIVERS = [{"name": "edge", "args": {"quick": [312], "thorough": [13000]}}]
 
 
 LEDGER_MODELS = [
@@ -204,7 +204,7 @@ PROPS = {
             "min_nontrivial": 5000},
     "C18": {"models": [{"name": "curve", "module": "Curve.tla", "cfg": {"quick": "MC_CurveQuick.cfg", "thorough": "MC_CurveThorough.cfg"},
                         "setup": "setups/empty.json", "timeout": {"quick": 900, "thorough": 7200}}],
-            "drivers": [{"name": "curve", "args": {"quick": [3000], "thorough": [100000]}}],
+            "drivers": [{"name": "curve", "args": {"quick": [3000], "thorough": [100000]}}] + EDGE_DRIVERS,
             "nontrivial": pure_nontrivial("curve"),
             "rule": "each curve configuration passed to the real validate() (and, if accepted, calc_interest_rate over an ascending utilization sweep) is one evaluation; all are non-trivial; distinct by configuration",
             "min_nontrivial": 1000},
@@ -230,7 +230,7 @@ PROPS = {
     "C07": risk_prop2(["bankruptcy"], LIQ_DRIVERS + LEDGER_DRIVERS + EDGE_DRIVERS, models=RISK_MODELS),
     "C09": risk_prop2(["borrow", "withdraw", "liquidate", "bankruptcy", "pulse_health"], LIQ_DRIVERS + RISK_DRIVERS + LEDGER_DRIVERS + STAKED_DRIVERS + KAMINO_DRIVERS + EDGE_DRIVERS, models=RISK_MODELS + ORACLE_MODELS + RISKCFG_MODELS),
     "C13": risk_prop2(["add_bank", "add_bank_staked", "add_bank_kamino", "add_bank_drift", "add_bank_solend", "init_staked_settings", "edit_staked_settings", "propagate_staked", "configure_bank", "configure_emode", "borrow", "withdraw", "pulse_health", "bankruptcy", "clone_emode"],
-                      LIQ_DRIVERS + RISK_DRIVERS + ADMIN_DRIVERS + STAKED_DRIVERS + KAMINO_DRIVERS, models=RISK_MODELS + CONFIG_MODELS + RISKCFG_MODELS),
+                      LIQ_DRIVERS + RISK_DRIVERS + ADMIN_DRIVERS + STAKED_DRIVERS + KAMINO_DRIVERS + EDGE_DRIVERS, models=RISK_MODELS + CONFIG_MODELS + RISKCFG_MODELS),
     "C14": risk_prop2(["deposit", "withdraw", "borrow", "repay", "liquidate", "bankruptcy", "propagate_fee"], LIQ_DRIVERS + RISK_DRIVERS + EDGE_DRIVERS, models=GATE_MODELS),
     "C01": dict(ledger_prop(), drivers=LEDGER_DRIVERS + EDGE_DRIVERS + LIQ_DRIVERS, models=LEDGER_MODELS + WIND_MODELS),
     "C02": dict(ledger_prop(extra_ops=["purge", "transfer_account", "kamino_deposit", "kamino_withdraw", "drift_deposit", "drift_withdraw", "solend_deposit", "solend_withdraw"]), drivers=LEDGER_DRIVERS + LIQ_DRIVERS + ADMIN_DRIVERS + KAMINO_DRIVERS + EDGE_DRIVERS, models=LEDGER_MODELS + VENUE_MODELS + LIFE_MODELS + WIND_MODELS),
